@@ -102,6 +102,12 @@ fn clause_pool(rng: &mut Rng, corpus: &Corpus, n: usize) -> Vec<String> {
         w2[at] = (*rng.pick(&same)).clone();
         pool.push(w2.join(" "));
     }
+    // phrase rules on capitalised words, right and wrong spelling of the same length
+    for f in ["It is a Mute Point now", "It is a Moot Point now", "They Changed Tact again", "They Changed Tack again", "That Peaked My Interest", "A Sneak Peak Of It", "a mute point", "changed tact"] {
+        if rng.chance(2, 3) {
+            pool.push(f.to_string());
+        }
+    }
     for f in ["ie, the usual", "eg, this one", "ie", "etc", "vs the rest", "al fresco", "st street", "am here"] {
         pool.push(f.to_string());
     }
@@ -347,7 +353,31 @@ pub fn worker(ctx: &mut Ctx) {
                 continue;
             }
             // now and then the very same text again, in the other language (one instance serves both)
+            // ... or the previous text with one word replaced by a same-length counterpart (same spans, same length, very
+            // likely the same buffer: whatever is remembered per position must not survive the change of text)
+            let swapped: Option<String> = match &prev {
+                Some((t, _)) if r.chance(1, 4) => {
+                    let pairs = [("Mute", "Moot"), ("mute", "moot"), ("Tact", "Tack"), ("tact", "tack"), ("Peaked", "Piqued"), ("Peak", "Peek"), ("peak", "peek"), ("cam", "cap"), ("teh", "the"), ("Teh", "The"),
+                        ("then", "than"), ("Then", "Than"), ("book", "boot"), ("apple", "grape"), ("Apple", "Grape"), ("recieve", "receive"), ("colour", "colors"), ("Cat", "Cot"), ("cat", "cot")];
+                    let mut out: Option<String> = None;
+                    let start = r.below(pairs.len());
+                    for k in 0..pairs.len() {
+                        let (a, b) = pairs[(start + k) % pairs.len()];
+                        if t.contains(a) {
+                            out = Some(t.replacen(a, b, 1));
+                            break;
+                        }
+                        if t.contains(b) {
+                            out = Some(t.replacen(b, a, 1));
+                            break;
+                        }
+                    }
+                    out
+                }
+                _ => None,
+            };
             let (text, md) = match (&prev, langs == "both" && r.chance(1, 5)) {
+                _ if swapped.is_some() => (swapped.clone().unwrap(), prev.as_ref().map(|x| x.1).unwrap_or(false)),
                 (Some((t, m)), true) => (t.clone(), !*m),
                 _ => {
                     let t = make_doc(&mut r, &pool);
@@ -384,8 +414,22 @@ pub fn worker(ctx: &mut Ctx) {
                     (got, exp)
                 } else {
                     let got = keys(&long.lint(&doc));
-                    let mut f = fresh(&dict, dialect, &cfg);
-                    let exp = keys(&f.lint(&doc));
+                    // the reference: a linter nobody has used, on a document of its own, and - every other step - on a thread
+                    // nobody has used either (state that outlives a lint call may sit in a thread-local as well as in the linter)
+                    let exp = if step % 2 == 0 {
+                        let (dict_t, cfg_t, text_t) = (dict.clone(), cfg.clone(), text.clone());
+                        std::thread::spawn(move || {
+                            let p2: Box<dyn Parser> = if md { Box::new(Markdown::default()) } else { Box::new(PlainEnglish) };
+                            let doc2 = Document::new(&text_t, &p2, &dict_t);
+                            let mut f = fresh(&dict_t, dialect, &cfg_t);
+                            keys(&f.lint(&doc2))
+                        })
+                        .join()
+                        .unwrap_or_else(|e| std::panic::resume_unwind(e))
+                    } else {
+                        let mut f = fresh(&dict, dialect, &cfg);
+                        keys(&f.lint(&doc))
+                    };
                     (got, exp)
                 }
             });
